@@ -1,6 +1,6 @@
 (* C06 — deserialize and deserialization_schema agree on what is valid. *)
 From Coq Require Import List String ZArith Bool.
-From AV Require Import Core.Json Deser.Model Deser.Spec Schema.Json Schema.Build Schema.Proofs Schema.ConProofs Schema.ShapeProofs.
+From AV Require Import Schema.ObjAgree Schema.NestAgree Schema.RefAgree Core.Json Deser.Model Deser.Spec Schema.Json Schema.Build Schema.Proofs Schema.ConProofs Schema.ShapeProofs.
 Import ListNotations.
 
 (* a Literal / Enum schema accepts exactly the listed values (on the common domain: no integer-valued float) *)
@@ -57,9 +57,9 @@ From AV Require Import Schema.AgreeProofs.
 Theorem C06_schema_accepts_iff_deserializer_accepts_object_free :
   forall u o refs ds,
   (forall e, refs (ename_ e) = true -> def_lookup (ename_ e) ds = Some (literal_schema (get_enum u e))) ->
-  forall fuel bf t ign d,
+  forall jf fuel bf t ign d,
   obj_free t = true -> wf_con t = true -> con_mergeable u o refs bf ign t = true -> keys_ok u t = true -> in_domain d = true ->
-  jvalid false ds 0 (build u o refs bf ign t) d = accepts (spec u o fuel None t d).
+  jvalid false ds jf (build u o refs bf ign t) d = accepts (spec u o fuel None t d).
 Proof. exact frag_agree. Qed.
 Print Assumptions C06_schema_accepts_iff_deserializer_accepts_object_free.
 
@@ -74,3 +74,38 @@ Example C06_hypotheses_satisfiable :
   obj_free t = true /\ wf_con t = true /\ con_mergeable u o (fun _ => false) 0 false t = true /\ keys_ok u t = true /\ in_domain d = true
   /\ jvalid false [] 0 (build u o (fun _ => false) 0 false t) d = true.
 Proof. vm_compute. repeat split. Qed.
+
+(* CLASSES.  The same statement for types containing dataclasses / NamedTuples / TypedDicts at any depth -- inside containers,
+   unions, other classes -- whether the builder gives them inline or through "$ref" + "$defs" (classes used several times,
+   recursive classes), against the schema AND the definitions the builder itself emits.  The recursion of the validator through
+   the references and of the deserializer through the classes both follow the data: the proof is by induction on the nesting of
+   objects in the datum, then on the type, and the fuels of the two interpreters only need to exceed that nesting.
+   Conditions (ref_hyps, all executable and evaluated by the run on every case): no fall_back_on_default, no
+   dependentRequired, order() keeps the declaration order, Annotated and mapping keys over object-free types, the
+   object-free side conditions on every field type, every extracted reference names a listed class or enum. *)
+Theorem C06_schema_accepts_iff_deserializer_accepts_with_classes :
+  forall u o names classes enums mD n jf sf ign t d,
+  ref_hyps u o names classes enums mD n jf sf ign t d = true ->
+  jvalid false (defs_for u o (refs_pred names) (S mD) classes enums) jf (build u o (refs_pred names) n ign t) d
+  = accepts (spec u o sf None t d).
+Proof. exact ref_agree_checked. Qed.
+Print Assumptions C06_schema_accepts_iff_deserializer_accepts_with_classes.
+
+(* classes given inline only (no reference): nested to any depth *)
+Theorem C06_schema_accepts_iff_deserializer_accepts_inline_classes :
+  forall u o refs ds,
+  (forall e, refs (ename_ e) = true -> def_lookup (ename_ e) ds = Some (literal_schema (get_enum u e))) ->
+  forall jf n ign t d, nest_hyps u o refs n ign t d = true ->
+  jvalid false ds jf (build u o refs n ign t) d = accepts (spec u o n None t d).
+Proof. exact nest_agree_checked. Qed.
+Print Assumptions C06_schema_accepts_iff_deserializer_accepts_inline_classes.
+
+(* satisfiable, with an accepted and a rejected datum each: a recursive tree node given by reference; an order holding a
+   customer, a list of lines and an optional address, all inline *)
+Theorem C06_class_hypotheses_satisfiable :
+  ref_hyps ref_ex_univ ref_ex_opts ref_ex_names [0] [] 11 12 5 5 false (TObj 0) ref_ex_good = true
+  /\ ref_hyps ref_ex_univ ref_ex_opts ref_ex_names [0] [] 11 12 5 5 false (TObj 0) ref_ex_bad = true
+  /\ nest_hyps nest_ex_univ nest_ex_opts (fun _ => false) 2 false (TObj 2) nest_ex_good = true
+  /\ nest_hyps nest_ex_univ nest_ex_opts (fun _ => false) 2 false (TObj 2) nest_ex_bad = true.
+Proof. vm_compute. repeat split. Qed.
+Print Assumptions C06_class_hypotheses_satisfiable.
